@@ -724,4 +724,65 @@ theorem normHost_lowerFixed {puny : Str → Str} (hpl : PunyLower puny) (o : Nor
       · exact h1
     · exact h1
 
+
+open Ural.Fingerprint Ural.FpReparse in
+/-- the language label / suffix step keeps a lower-case host lower-case -/
+theorem fingerprintHost_lowerFixed (puny : Str → Str) (trie : SNode Str) (sfx : Bool) (h h' : Str)
+    (hplain : sfx = true → HostPlain h) (hl : LowerFixed h)
+    (hr : fingerprintHost (stringEnv puny id trie) sfx h = .ok h') : LowerFixed h' := by
+  unfold fingerprintHost at hr
+  simp only at hr
+  have hsub := stripLang_subset (stringEnv puny id trie).isCC h
+  cases sfx with
+  | false =>
+    simp only [Bool.false_eq_true, if_false, Except.ok.injEq] at hr
+    subst hr; exact hl.of_subset hsub
+  | true =>
+    simp only [if_true] at hr
+    have hx : HostPlain (stripLangSubdomainsFromHostname (stringEnv puny id trie).isCC h) :=
+      (hplain rfl).of_subset hsub
+    have hlx : LowerFixed (stripLangSubdomainsFromHostname (stringEnv puny id trie).isCC h) :=
+      hl.of_subset hsub
+    generalize stripLangSubdomainsFromHostname (stringEnv puny id trie).isCC h = x at hr hx hlx
+    unfold stripSuffix at hr
+    have hw : (stringEnv puny id trie).walkHost x = pyWalkHost x := rfl
+    rw [hw] at hr
+    by_cases hx0 : x = []
+    · subst hx0
+      rw [pyWalkHost_nil] at hr
+      have : SuffixTrie.split (stringEnv puny id trie).trie none = none := rfl
+      simp only [this, Except.ok.injEq] at hr
+      subst hr; exact hlx
+    · rw [walkLaws_py.plain x (hx.plainHost hx0)] at hr
+      simp only at hr
+      cases hsp : SuffixTrie.split (stringEnv puny id trie).trie (some (lower x)) with
+      | none =>
+        rw [hsp] at hr
+        simp only [Except.ok.injEq] at hr
+        subst hr; exact hlx
+      | some ds =>
+        obtain ⟨d, s⟩ := ds
+        rw [hsp] at hr
+        simp only [Except.ok.injEq] at hr
+        subst hr
+        intro c hc
+        rcases split_fst_mem _ _ _ _ hsp c hc with rfl | h1
+        · decide
+        · exact lowerFixed_lower _ c h1
+
+/-- `.hostname` of a netloc that is a bare host -/
+theorem hostname_bare (H : Str) (h1 : '@' ∉ H) (h2 : '[' ∉ H) (h3 : ']' ∉ H) (h4 : ':' ∉ H) :
+    hostname H = if H = [] then none else some (lowerHost H) := by
+  have e : unsplitNetloc none none (some H) none = H := by
+    rw [unsplitNetloc_eq]
+    simp only [strOf_none, strOf_some, authPart, ne_eq, not_true_eq_false, if_false,
+      UrlRoundTrip.portPart, List.append_nil, List.nil_append]
+    unfold UrlRoundTrip.hostPart
+    rw [if_neg]
+    intro h; exact h4 (by simpa using h.1)
+  have := (accessors_unsplitNetloc none none (some H) none (by simp [strOf_none])
+    (by rw [strOf_some]; exact ⟨h1, h2, h3⟩) (by intro n hn; simp at hn)).2.2.1
+  rw [e, strOf_some] at this
+  exact this
+
 end Ural.C07
